@@ -36,10 +36,13 @@ type builder struct {
 	nW     int
 	ops    []string
 	tags   map[int]bool
+	base   map[int]int  // tag -> first instance the mempool would admit (valid, never expiring, genesis key)
+	pooled map[int]bool // tags submitted to the pool
 }
 
 func newCase(name string, rec bool, hi, lo int) *builder {
-	return &builder{name: name, rec: rec, hi: hi, lo: lo, blks: map[int]*gBlk{0: {execOK: true}}, tags: map[int]bool{}}
+	return &builder{name: name, rec: rec, hi: hi, lo: lo, blks: map[int]*gBlk{0: {execOK: true}}, tags: map[int]bool{},
+		base: map[int]int{}, pooled: map[int]bool{}}
 }
 
 func b2s(b bool) string {
@@ -55,7 +58,38 @@ func (b *builder) tx(tag, key int, sig bool, exp string, fee, chain, run bool, t
 	b.insts = append(b.insts, gInst{tag: tag, key: key, sig: sig, fee: fee, chain: chain, run: run, exp: exp})
 	b.txl = append(b.txl, fmt.Sprintf("tx %d %d %d %s %s %s %s %s %s %d", id, tag, key, b2s(sig), exp, b2s(fee), b2s(chain), b2s(run), to, amt))
 	b.tags[tag] = true
+	if _, ok := b.base[tag]; !ok && key == 0 && sig && fee && chain && run && exp == "n" {
+		b.base[tag] = id
+	}
 	return id
+}
+
+// pool modes: which of a block's transactions the receiving node's mempool holds (the pool is
+// looked up by Hash(), so the admissible instance of each hash is submitted) before the delivery.
+const (
+	poolNone = iota
+	poolSome
+	poolAll
+)
+
+// poolFor emits `pool+` for the transactions of block wid according to mode; tags in skip (already
+// on the chain: the mempool would refuse them) and tags without an admissible instance are left out.
+func (b *builder) poolFor(pick func() bool, mode int, wid int, skip map[int]bool) {
+	if mode == poolNone {
+		return
+	}
+	for _, i := range b.blks[wid].txs {
+		tag := b.insts[i].tag
+		inst, ok := b.base[tag]
+		if !ok || b.pooled[tag] || skip[tag] {
+			continue
+		}
+		if mode == poolSome && !pick() {
+			continue
+		}
+		b.pooled[tag] = true
+		b.op("pool+ %d", inst)
+	}
 }
 
 // plain: a valid transfer of the genesis account, never expiring.
